@@ -585,14 +585,22 @@ def oracle(case, res):
     #     model, hence not its optimiser: when the dataset is optimised that route is outside
     #     "saving it together with its data" and only (1) is judged for it.
     in_domain = not (any(a in META for a in atoms) and "dataset" in cfg["optimise"])
+    # Adam-family optimiser on the dataset model: +-lr per iteration on numerically-zero gradient components
+    # (see c05_toy.compare_extra); thorough-tier false alarm of session 4 (8.6e-4 px with every loss equal to 1e-7)
+    ds_slack = 0.0
+    if "dataset" in cfg["optimise"] and str(cfg["opt"]).startswith("adam"):
+        try:
+            ds_slack = 1.5 * float(cfg["lr"]["dataset"]) * int(case["n"])
+        except Exception:  # noqa
+            ds_slack = 0.0
     if in_domain:
-        m = T.compare_numeric(res["resumed"], res["ref"], TOL, ARR_L2, ARR_MAX)
+        m = T.compare_numeric(res["resumed"], res["ref"], TOL, ARR_L2, ARR_MAX, dataset_slack=ds_slack)
         if m:
             bad.append(("%s-resume-%s" % (vk, classify(m)),
                         "%s differs from the uninterrupted run: %s" % (describe_calls(case), m)))
     # (3) the original object goes on as if nothing had happened
     if res["separate_live"]:
-        m = T.compare_numeric(res["live"], res["ref"], TOL, ARR_L2, ARR_MAX)
+        m = T.compare_numeric(res["live"], res["ref"], TOL, ARR_L2, ARR_MAX, dataset_slack=ds_slack)
         if m:
             first = atoms[[a != "to" for a in atoms].index(True)]
             bad.append(("live-after-%s-%s" % ("clone" if first == "clone" else "save", classify(m)),
